@@ -461,6 +461,14 @@ class SymDatetime:
 
     def replace(self, year=None, month=None, day=None, hour=None, minute=None, second=None,
                 microsecond=None, tzinfo=True, **kw):
+        if (year is None and month is None and day is None and hour is None and minute is None
+                and second is None and microsecond is not None and self._f is None):
+            # only the microsecond changes: one division by 10**6 suffices
+            if not (0 <= microsecond) or not (microsecond < US):
+                raise ValueError('microsecond must be in 0..999999')
+            whole, _ = sx_divmod(self.wall, US)
+            tz = self.tzinfo if tzinfo is True else tzinfo
+            return mk_dt(whole * US + microsecond, tz)
         o, tod = self._split()
         ymd = self._ymd
         hmsu = self._f
